@@ -773,20 +773,20 @@ fn main() {
     let check = Check::new("C20", "exploration");
     check.rule("engine: 1-3 streams from 15 operator templates (all window kinds, partitioned windows, sequences incl. Kleene/partitioned, join, distinct, limit, watermark) + var declarations, fed <=13 events of types A/B/C whose fields are biased to NaN/+-inf/-0.0/nested arrays+maps/unicode/large ints and whose timestamps carry a sub-ms part; the checkpoint of the real engine is round-tripped through codec::serialize(Json)/codec::deserialize behind 6 whitespace prefixes (auto-detection); oracle = equal canonical trees built by an own serde serializer (exact floats, NaN=NaN, map order ignored) + re-serialisation denotes the same JSON + every restored stored event equals an input event as (type, timestamp, field map). synth: directly synthesised EngineCheckpoint/Checkpoint (every field, unicode names, extreme ints). events: Event -> SerializableEvent -> bytes -> Event equals the original. mutate: byte/token-mutated encodings must not panic and accepted ones re-encode stably. Non-trivial = the checkpoint holds >=1 event and a non-finite float or nested value (mutate: bytes really changed); distinct by case hash.");
     check.assume("the derived Serialize impls of the checkpoint types enumerate every field (no serde(skip) in persistence.rs) — they feed the canonical-tree oracle; default feature set (JSON codec), binary-codec not exercised");
-    check.explore("engine", engine_strategy, 1500, 30_000, check_engine);
-    check.explore("synth", synth_strategy, 3000, 80_000, check_synth);
+    check.explore("engine", engine_strategy, 5000, 100_000, check_engine);
+    check.explore("synth", synth_strategy, 10_000, 200_000, check_synth);
     check.explore(
         "events",
         || (events_strategy(8), 0u8..6).prop_map(|(events, ws)| EventsCase { events, ws, strict_ts: false }),
-        4000,
-        100_000,
+        15_000,
+        300_000,
         check_events,
     );
     check.explore(
         "mutate",
         || (synth_strategy(), proptest::collection::vec((any::<u32>(), 0u8..6, any::<u8>()), 1..4)).prop_map(|(base, muts)| MutCase { base, muts }),
-        3000,
-        80_000,
+        10_000,
+        200_000,
         check_mutate,
     );
     check.finish();
